@@ -209,3 +209,13 @@ def chain_pool_advances_every_chain_once(h):
     pool.advance(n)
     h.same("second advance: every chain advanced by exactly n more steps", [len(lg) for lg in logs], [2 * n] * nch)
     h.same("second advance: chains still in the caller's order", [c is d for c, d in zip(pool.chains, chains)], [True] * nch)
+
+
+@unit("C15", quick=[dict(cls="gibbs", d=1, retries=2), dict(cls="pca", d=2, retries=1), dict(cls="hmc", d=1, retries=1), dict(cls="hmc", d=2, retries=0)],
+      max_paths=6000, cost=5)
+def one_step_stores_one_sample_and_one_log_probability(h, cls, d, retries):
+    """a single take_step of every chain sampler, on every path through its retry loop (including 'every attempt of the
+    step rejected', where the documented behaviour is an exception): exactly one sample and one log-probability are
+    appended and the reported chain length equals both counts.  Same execution as C03's step-invariant unit"""
+    from harness import c03
+    c03.constructor_and_step_preserve_invariant(h, cls, d, retries)
